@@ -202,6 +202,10 @@ impl Pool {
         let mut w = spawn_worker(&self.env, &self.init);
         w.run(job, CONFIRM_LIMIT)
     }
+    /// what a fresh worker needs (for running isolated jobs from several threads)
+    pub fn spec(&self) -> (Vec<(String, String)>, Vec<Vec<u8>>) {
+        (self.env.clone(), self.init.clone())
+    }
     /// run one job alone in a fresh process with extra environment
     pub fn run_isolated_env(&self, job: &[u8], extra: &[(String, String)], limit: Duration) -> JobResult {
         let mut env = self.env.clone();
@@ -263,4 +267,10 @@ pub fn worker_main(mut handle: impl FnMut(&[u8], &mut WorkerIo) -> Vec<u8>) {
         let res = handle(&job, &mut io);
         io.result(&res);
     }
+}
+
+/// run one job alone in a fresh process described by `spec` (see Pool::spec)
+pub fn run_isolated_spec(spec: &(Vec<(String, String)>, Vec<Vec<u8>>), job: &[u8]) -> JobResult {
+    let mut w = spawn_worker(&spec.0, &spec.1);
+    w.run(job, CONFIRM_LIMIT)
 }
